@@ -110,7 +110,9 @@ Definition is_per (f : Z) (c : cell) : bool := match c with CPer f' _ => f =? f'
 Definition cell_int64 (c : cell) : bool := match c with CInt z => in_int64 z | _ => false end.
 Definition cell_uint64 (c : cell) : bool := match c with CInt z => in_uint64 z | _ => false end.
 Definition is_num_or_none (c : cell) : bool :=
-  match c with CInt z => in_int64 z | CFlt _ | CNone => true | _ => false end.
+  match c with CInt _ | CFlt _ | CNone => true | _ => false end.
+Definition out_int64 (c : cell) : bool := match c with CInt z => negb (in_int64 z) | _ => false end.
+Definition is_per_any (c : cell) : bool := match c with CPer _ _ => true | _ => false end.
 Definition is_str_or_none (c : cell) : bool := match c with CStr _ | CNone => true | _ => false end.
 
 (* value of a cell once its list has been found to be float64 *)
@@ -131,13 +133,13 @@ Definition pd_infer (cs : list cell) : option (pdt * list cell) :=
     else if forallb is_bool cs then Some (PBool, cs)
     else if forallb is_str cs then Some (PStrDt, cs)
     else if forallb is_str_or_none cs then Some (PStrDt, map none_to_nan cs)
-    else if forallb is_num_or_none cs then Some (PFloat64, map to_float_cell cs)
+    else if forallb is_num_or_none cs then
+      (* an int outside int64 next to None / floats: float64 or object depending on the order of the cells — not tabulated *)
+      (if existsb out_int64 cs then None else Some (PFloat64, map to_float_cell cs))
     else if forallb is_ts cs then Some (PDatetime, cs)
     else match c0 with
          | CPer f _ => if forallb (is_per f) cs then Some (PPeriod f, cs) else None
-         | _ => if existsb is_none cs || existsb is_ts cs
-                   || existsb (fun c => match c with CPer _ _ => true | _ => false end) cs
-                then None else Some (PObject, cs)
+         | _ => if existsb is_ts cs || existsb is_per_any cs then None else Some (PObject, cs)
          end
   end.
 
@@ -242,6 +244,18 @@ Definition model_to_table (status iterations include_internal : bool) (m : fmode
     end
   end.
 
+(* ------------------------------------------------------------------ VectorContainer.to_dataframe (containers.py) *)
+(* DataFrame({k: self[k] for k in self.index}, index=self.span): every variable of the container in creation order (for a
+   model object that includes status and iterations, which come first); `vars` = the container's index with its series *)
+Definition container_to_table (sp : span) (vars : list (string * series)) : tres table :=
+  match pd_index sp with
+  | None => TUnmodelled
+  | Some ix =>
+    let n := length (ilabels ix) in
+    if negb (forallb (fun kv => Nat.eqb (length (scells (snd kv))) n) vars) then TErr ValueError
+    else TOk (mkTable ix (map col_of vars))
+  end.
+
 (* ------------------------------------------------------------------ linker_to_dataframes *)
 Record flinker : Type := mkLinker {
   lname : cell;                               (* linker.name (any hashable) *)
@@ -312,6 +326,11 @@ Definition np_cast (d : ndt) (c : cell) : tres cell :=
   | NStr, CInt z => TOk (CStr (string_of_Z z))
   | NStr, CBool b => TOk (CStr (if b then "True" else "False"))
   | NStr, CNone => TOk (CStr "None")
+  | NStr, CFlt (FInt z) => if Z.abs z <? 1000000000000000 then TOk (CStr (string_of_Z z ++ ".0")) else TUnmodelled
+  | NStr, CFlt FNegZero => TOk (CStr "-0.0")
+  | NStr, CFlt FNaN => TOk (CStr "nan")
+  | NStr, CFlt FPInf => TOk (CStr "inf")
+  | NStr, CFlt FNInf => TOk (CStr "-inf")
   | _, _ => TUnmodelled
   end.
 
@@ -370,16 +389,15 @@ Fixpoint all_some {A} (l : list (option A)) : option (list A) :=
   | None :: _ => None
   end.
 
-(* a lag / lead outside int64 is tabulated only for columns without None (strict = the column holds a None) *)
-Definition cell_of_oidx (strict : bool) (o : option pidx) : option cell :=
+(* the parser never leaves a text index in lags / leads: not tabulated *)
+Definition cell_of_oidx (o : option pidx) : option cell :=
   match o with
   | None => Some CNone
-  | Some (IInt z) => if strict && negb (in_int64 z) then None else Some (CInt z)
+  | Some (IInt z) => Some (CInt z)
   | Some (IStr _) => None
   end.
 Definition is_None {A} (o : option A) : bool := match o with None => true | Some _ => false end.
-Definition idx_cells (os : list (option pidx)) : option (list cell) :=
-  all_some (map (cell_of_oidx (existsb is_None os)) os).
+Definition idx_cells (os : list (option pidx)) : option (list cell) := all_some (map cell_of_oidx os).
 
 Definition mk_column (name : string) (cs : list cell) : option pcolumn :=
   match pd_infer cs with Some (d, cs') => Some (mkCol name d cs') | None => None end.
